@@ -252,7 +252,7 @@ struct array_types : private Layout {  // cppcheck-suppress syntaxError ; false 
 	#pragma clang diagnostic ignored "-Wunknown-warning-option"
 	#pragma clang diagnostic ignored "-Wunsafe-buffer-usage"  // TODO(correaa) use checked span
 	#endif
-	       constexpr auto origin()           const&       -> decltype(auto) {return base_ + Layout::origin();}
+	       constexpr auto origin()           const&       -> element_const_ptr {return base_ + Layout::origin();}
 	#if defined(__clang__)
 	#pragma clang diagnostic pop
 	#endif
@@ -2039,6 +2039,10 @@ class subarray : public const_subarray<T, D, ElementPtr, Layout> {
 	BOOST_MULTI_HD constexpr auto base() const& -> typename subarray::element_const_ptr { return this->base_; }
 	BOOST_MULTI_HD constexpr auto base() &  -> ElementPtr { return this->base_; }
 	BOOST_MULTI_HD constexpr auto base() && -> ElementPtr { return this->base_; }
+
+	using const_subarray<T, D, ElementPtr, Layout>::origin;
+	constexpr auto origin()  & -> ElementPtr { return this->base_ + this->layout().origin(); }
+	constexpr auto origin() && -> ElementPtr { return this->base_ + this->layout().origin(); }
 	// BOOST_MULTI_HD constexpr auto base() const& -> element_const_ptr {return base_;}
 
 	constexpr auto operator=(const_subarray<T, D, ElementPtr, Layout> const& other) & -> subarray& {
